@@ -17,6 +17,8 @@ def gen(tier, rng):
             out.append(("PKCE %s %s" % (m, C.tb("a" * n)), "len-sweep"))
         for s in ["é" * 21 + "a", "é" * 22, "日" * 14, "日" * 15, "\U0001F600" * 10 + "abc", "\U0001F600" * 11, "é" * 64, "é" * 65]:
             out.append(("PKCE %s %s" % (m, C.tb(s)), "non-ascii-byte-length"))
+        for s in ["a" * 40 + "%41%42", "%41" * 15, "abc%2Fdef" + "x" * 40, "%7E" + "y" * 43, "z" * 43 + "%", "%zz" + "q" * 45, "k" * 41 + "%2", "a%41" * 12, "A-._~%5f" * 6]:
+            out.append(("PKCE %s %s" % (m, C.tb(s)), "escape-like-verifier"))
         for s in [" " + "a" * 43, "a" * 43 + "\n", "\t" + "b" * 50 + "\r\n", " " * 43, "a" * 20 + "  " + "b" * 30, "\u00a0" + "c" * 45 + "\u2003", "d" * 127 + " "]:
             out.append(("PKCE %s %s" % (m, C.tb(s)), "whitespace-verifier"))
     # literals that are new in the source (gen/srclit.py): words inside verifiers of legal length (start, middle, end), integers
